@@ -104,6 +104,9 @@ struct ChildPlan {
   // 2 = ignore the signal and finish normally.
   int on_signal = 0;
   int tag = -1;                            // driver's statement id, -1 unknown
+  // the command is a shell that started a program in its own process group (a pipeline, a
+  // subshell): a signal sent to the pid alone, not to the group, only stops the shell
+  bool multi_process = false;
 };
 
 struct Child {
@@ -115,6 +118,7 @@ struct Child {
   size_t next_step = 0;
   int64_t start_time = 0;
   bool exited = false, reaped = false, killed = false;
+  bool survivor = false;     // the shell is dead (and can be reaped), the program it started goes on
   int status = 0;
   uint64_t spawn_seq = 0;
 };
